@@ -497,7 +497,7 @@ func builtinModels() map[string]modelFn {
 	// harness/zzverif/memfs.go (plain Go, executed from SSA) -----
 	for from, to := range map[string]string{
 		"os.Open": "ZZOsOpen", "os.Stat": "ZZOsStat", "os.MkdirTemp": "ZZMkdirTemp", "os.MkdirAll": "ZZMkdirAll",
-		"os.WriteFile": "ZZWriteFile", "os.RemoveAll": "ZZRemoveAll",
+		"os.WriteFile": "ZZWriteFile", "os.RemoveAll": "ZZRemoveAll", "os.Chtimes": "ZZChtimes",
 		"os.IsNotExist": "ZZIsNotExist", "os.IsPermission": "ZZIsPermission", "os.IsExist": "ZZIsExist",
 		"(*os.File).Stat": "ZZFileStat", "(*os.File).Name": "ZZFileName", "(*os.File).Close": "ZZFileClose",
 		"(*os.File).Read": "ZZFileRead", "(*os.File).ReadAt": "ZZFileReadAt", "(*os.File).Seek": "ZZFileSeek",
@@ -570,7 +570,6 @@ func builtinModels() map[string]modelFn {
 	}
 	// display-only parts of time.Time: the location and the printed form are outside every claim
 	m["(time.Time).In"] = func(e *Engine, st *State, c *callCtx) { e.finish(st, c, c.args[0]) }
-	m["(time.Time).UTC"] = func(e *Engine, st *State, c *callCtx) { e.finish(st, c, c.args[0]) }
 	m["(time.Time).String"] = func(e *Engine, st *State, c *callCtx) { e.finish(st, c, e.constString("<time>")) }
 	// tickers: the channel stays armed; each fire advances the modelled clock by the period
 	m["time.NewTicker"] = func(e *Engine, st *State, c *callCtx) {
